@@ -36,6 +36,9 @@ class Classifier:
                 return "opaque"
             if cn in ADDITIVE or cn in C02.nop_wrappers(self.facts) or cn in C02.annotating_helpers(self.facts):
                 return [i for i, a in enumerate(t["args"]) if a[0] != "k" and has_node(b.local_ty(a[1][0]))]
+            cb_ = self.facts.bodies.get(cn)
+            if cb_ is not None and cb_.kind == "closure" and cn in C02.send_wrappers(self.facts):
+                return [1]      # `send(value, from, to)`: the sent node is the value handed in (the argument tuple)
             return None
         return Flow(self.facts, b, C02.EXTRA, call_hook=hook)
 
@@ -101,7 +104,8 @@ def _call_sites(facts, cb):
     """[(caller body, block, {param local: (operand, at)})] for a local closure or a crate-local helper function"""
     out = []
     if cb.kind == "closure":
-        callers = [facts.bodies.get(cb.root or "")]
+        root = facts.bodies.get(cb.root or "")
+        callers = [root] + [c_ for c_ in facts.closures_of(cb.root or "") if c_ is not cb]     # also called from sibling closures
     else:
         callers = [b for _, b in C02.mpc_bodies(facts)]
     for parent in callers:
